@@ -31,6 +31,9 @@ func (fgen *funcGen) irValue(typ types.Type, old ast.Value) (value.Value, error)
 		if !ok {
 			return nil, errors.Errorf("unable to locate local identifier %q of %q", ident.Ident(), fgen.f.Ident())
 		}
+		if typ != nil && !typ.Equal(v.Type()) {
+			return nil, errors.Errorf("type mismatch of local identifier %q of %q; defined with type %q but expected %q", ident.Ident(), fgen.f.Ident(), v.Type(), typ)
+		}
 		return v, nil
 	case *ast.InlineAsm:
 		return irInlineAsm(typ, old), nil
